@@ -37,6 +37,19 @@ type mutant struct {
 	repl string
 }
 
+var pairs = flag.Bool("pairs", false, "second operator set: sibling names swapped (left/right, LStart/RStart, prev/next, X/Y, …) and two-argument calls with their arguments exchanged")
+
+var sibling = map[string]string{}
+
+func init() {
+	for _, p := range [][2]string{{"left", "right"}, {"Left", "Right"}, {"LStart", "RStart"}, {"LEnd", "REnd"}, {"prev", "next"}, {"X", "Y"},
+		{"lcur", "rcur"}, {"lend", "rend"}, {"lpos", "rpos"}, {"lhs", "rhs"}, {"as", "bs"}, {"lo", "hi"}, {"llo", "rlo"}, {"lhi", "rhi"},
+		{"pre", "post"}, {"first", "last"}, {"start", "end"}, {"min", "max"}, {"Min", "Max"}, {"Next", "Prev"}, {"HasNext", "HasPrev"},
+		{"OpDrop", "OpCopy"}, {"addl", "addr"}, {"pushUp", "pushDown"}, {"size", "max"}, {"head", "n"}, {"i", "j"}, {"p", "q"}, {"a", "b"}} {
+		sibling[p[0]], sibling[p[1]] = p[1], p[0]
+	}
+}
+
 func collect(repo string) []mutant {
 	var out []mutant
 	var files []string
@@ -68,6 +81,9 @@ func collect(repo string) []mutant {
 		ast.Inspect(af, func(n ast.Node) bool {
 			switch x := n.(type) {
 			case *ast.BinaryExpr:
+				if *pairs {
+					return true
+				}
 				swaps := map[token.Token][]string{
 					token.LSS: {"<="}, token.LEQ: {"<"}, token.GTR: {">="}, token.GEQ: {">"},
 					token.EQL: {"!="}, token.NEQ: {"=="}, token.LAND: {"||"}, token.LOR: {"&&"},
@@ -77,24 +93,56 @@ func collect(repo string) []mutant {
 					add(x.OpPos, x.OpPos+token.Pos(len(x.Op.String())), r, x.Op.String()+"→"+r)
 				}
 			case *ast.BasicLit:
+				if *pairs {
+					return true
+				}
 				if x.Kind == token.INT && len(x.Value) < 4 && !strings.HasPrefix(x.Value, "0x") {
 					var v int
 					fmt.Sscanf(x.Value, "%d", &v)
 					add(x.Pos(), x.End(), fmt.Sprint(v+1), x.Value+"→"+fmt.Sprint(v+1))
 				}
 			case *ast.UnaryExpr:
-				if x.Op == token.NOT {
+				if !*pairs && x.Op == token.NOT {
 					add(x.OpPos, x.OpPos+1, "", "drop !")
 				}
 			case *ast.BranchStmt:
+				if *pairs {
+					return true
+				}
 				if x.Label == nil && x.Tok == token.BREAK {
 					add(x.Pos(), x.End(), "continue", "break→continue")
 				}
 				if x.Label == nil && x.Tok == token.CONTINUE {
 					add(x.Pos(), x.End(), "break", "continue→break")
 				}
+			case *ast.Ident:
+				if *pairs {
+					if o, ok := sibling[x.Name]; ok && x.Obj == nil || ok && x.Obj != nil && x.Obj.Kind == ast.Var {
+						add(x.Pos(), x.End(), o, x.Name+"→"+o)
+					}
+				}
+			case *ast.CallExpr:
+				if *pairs && len(x.Args) == 2 {
+					simple := func(e ast.Expr) bool {
+						switch e.(type) {
+						case *ast.Ident, *ast.SelectorExpr:
+							return true
+						}
+						return false
+					}
+					if simple(x.Args[0]) && simple(x.Args[1]) {
+						a := string(src[fset.Position(x.Args[0].Pos()).Offset:fset.Position(x.Args[0].End()).Offset])
+						b := string(src[fset.Position(x.Args[1].Pos()).Offset:fset.Position(x.Args[1].End()).Offset])
+						if a != b {
+							add(x.Args[0].Pos(), x.Args[1].End(), b+", "+a, "swap args ("+a+", "+b+")")
+						}
+					}
+				}
 			case *ast.BlockStmt:
 				for _, st := range x.List {
+					if *pairs {
+						break
+					}
 					switch st.(type) {
 					case *ast.ExprStmt, *ast.IncDecStmt:
 						add(st.Pos(), st.End(), "", "delete statement")
